@@ -332,6 +332,12 @@ def dePadToAlignment (d : De) (n : Nat) : Except Err De :=
 /-- the field of `n` bits at the cursor of a deserializer, zero-extended beyond the buffer -/
 def deField (d : De) (n : Nat) : Nat := fieldOf (fun i => bitAt d.buf (d.off + i)) n
 
+/-- bit `i` of a NumPy bool array, `false` outside -/
+def bitOf (x : List Bool) (i : Nat) : Bool := (x[i]?).getD false
+
+/-- number of padding bits up to the next multiple of `n` -/
+def padBits (off n : Nat) : Nat := (n - off % n) % n
+
 /-- serializer invariant: the bytes are bytes and every bit at or above the cursor is zero
 (true for `Serializer.new`, preserved by every `add_*`) -/
 def Ser.Inv (s : Ser) : Prop := WF s.buf ∧ ∀ i, s.off ≤ i → bitAt s.buf i = false
